@@ -617,19 +617,21 @@ Proof.
       * contradiction.
 Qed.
 
-(* With `depth` levels of fuel the answer is Err EOutOfFuel only if bs really contains
-   `depth` compressed sets nested in one another: the loop fuel S (length bs) is never the
-   reason, only depth = 0 is. *)
+(* `depth` is the code's own bound (fetch.rs MAX_COMPRESSION_DEPTH, F28): a set that really contains `depth`
+   compressed sets nested in one another is refused with UnsupportedCompression - an error value, not a
+   deeper recursion.  (Before the repair the Rust code followed the nesting without bound and the model
+   answered the model-only EOutOfFuel here.) *)
 Theorem C13_message_set_depth : forall cz validate req depth bs,
-  from_slice cz depth validate req bs = Err EOutOfFuel -> nesting cz validate req depth bs.
+  nesting cz validate req depth bs -> from_slice cz depth validate req bs = Err EUnsupportedCompression.
 Proof.
-  intros cz validate req. induction depth as [|d IH]; intros bs H; [constructor|].
-  destruct (from_slice_S_inv _ _ _ _ _ _ H) as [c [v [Hw Hi]]].
-  { cbn. intros Hx. apply Hx. reflexivity. }
-  destruct (fs_inner_inv _ _ _ _ _ _ _ (proj1 Hw) Hi) as [[_ [_ Hp]]|[data [Hd Hf]]].
-  { cbn. intros Hx. apply Hx. reflexivity. }
-  - discriminate.
-  - econstructor; [exact Hw|exact Hd|apply IH; exact Hf].
+  intros cz validate req. induction depth as [|d IH]; intros bs H; [reflexivity|].
+  inversion H as [|n bs0 c v data Hw Hd Hn]; subst.
+  rewrite from_slice_S. destruct Hw as [Hc Hall]. rewrite Hall. unfold fs_inner.
+  destruct Hd as [[-> Hz]|[-> [Ha Hx]]].
+  - cbn [Z.eqb COMPRESSION_GZIP]. replace (COMPRESSION_GZIP =? COMPRESSION_GZIP) with true by reflexivity.
+    rewrite Hz. apply IH. exact Hn.
+  - replace (COMPRESSION_SNAPPY =? COMPRESSION_GZIP) with false by reflexivity.
+    destruct (alloc_limit <=? xerial_max_alloc v) eqn:Ea; [lia|]. rewrite Hx. cbn [bind]. apply IH. exact Hn.
 Qed.
 
 (* the loop alone (any fuel above |bs|) never reports EOutOfFuel: it has to come from `inner` *)
@@ -660,22 +662,24 @@ Proof.
     eapply reach_in; eauto.
 Qed.
 
-(* and the debug assertion fires in debug builds only (C13_message_set_outcomes);
-   more fuel never changes a result that is not EOutOfFuel *)
-Lemma from_slice_fuel_mono cz validate req : forall d bs r,
-  from_slice cz d validate req bs = r -> r <> Err EOutOfFuel ->
-  from_slice cz (S d) validate req bs = r.
+(* and the debug assertion fires in debug builds only (C13_message_set_outcomes).
+   Since the repair of F28 the nesting bound is the code's own (fetch.rs MAX_COMPRESSION_DEPTH: a set nested
+   deeper is refused with UnsupportedCompression), so decoding a message set never ends in the model-only EOutOfFuel *)
+Lemma from_slice_never_out_of_fuel cz validate req : forall d bs,
+  from_slice cz d validate req bs <> Err EOutOfFuel.
 Proof.
-  induction d as [|d IH]; intros bs r H Hr; [cbn in H; congruence|].
-  rewrite from_slice_S in *.
+  induction d as [|d IH]; intros bs; [cbn; discriminate|].
+  rewrite from_slice_S.
   destruct (ms_loop_shape (debug_build cz) validate req (S (length bs)) bs [] ltac:(lia))
     as [[r0 [Hr0 Hall]]|[c [v [Hc Hall]]]].
-  - rewrite Hall in *. exact H.
-  - rewrite Hall in *. unfold fs_inner in *.
+  - rewrite Hall. intros E. rewrite E in Hr0. cbn in Hr0. apply Hr0. reflexivity.
+  - rewrite Hall. unfold fs_inner.
     destruct (c =? COMPRESSION_GZIP).
-    + destruct (gz_decompress cz v) as [data|]; [apply IH; assumption|exact H].
-    + destruct (alloc_limit <=? xerial_max_alloc v); [exact H|].
-      destruct (xerial_read_to_end v) as [data|e|w]; cbn [bind] in *; [apply IH; assumption|exact H|exact H].
+    + destruct (gz_decompress cz v) as [data|]; [apply IH|discriminate].
+    + destruct (alloc_limit <=? xerial_max_alloc v); [discriminate|].
+      destruct (xerial_read_to_end v) as [data|e|w] eqn:Ex; cbn [bind]; [apply IH| |discriminate].
+      intros E. injection E as ->.
+      pose proof (xerial_read_to_end_out v) as G. rewrite Ex in G. cbn in G. apply G. reflexivity.
 Qed.
 
 (* ---- lifting to the whole fetch response ------------------------------------------------------------ *)
@@ -748,15 +752,15 @@ Proof.
     destruct H as [H|[H1 H2]]; [left; right; left; rewrite H; reflexivity|right; split; [exact H1|rewrite H2; reflexivity]].
 Qed.
 
-(* EOutOfFuel for a whole response: some message set in it nests `depth` compressed sets;
+(* a whole response never ends in the model-only EOutOfFuel (the nesting bound is the code's own and yields
+   UnsupportedCompression);
    the allocation request: some message set in it reaches a snappy chunk header >= 1 GiB *)
 Corollary C13_fetch_response_depth : forall cz depth validate reqs bs,
-  fetch_from_vec cz depth validate reqs bs = Err EOutOfFuel ->
-  exists req ms, nesting cz validate req depth ms.
+  fetch_from_vec cz depth validate reqs bs <> Err EOutOfFuel.
 Proof.
   intros cz depth validate reqs bs H.
   pose proof (C13_fetch_response_lift cz depth validate reqs bs) as L. rewrite H in L. cbn [out_ok] in L.
-  destruct (L eq_refl) as [req [ms Hf]]. exists req, ms. apply C13_message_set_depth. exact Hf.
+  destruct (L eq_refl) as [req [ms Hf]]. exact (from_slice_never_out_of_fuel cz validate req depth ms Hf).
 Qed.
 Corollary C13_fetch_response_alloc_only_if : forall cz depth validate reqs bs,
   fetch_from_vec cz depth validate reqs bs = alloc_panic ->
@@ -810,11 +814,11 @@ Example ex_trailing_release :
 Proof. vm_compute. reflexivity. Qed.
 
 (* non-vacuity of C13_message_set_depth: a plain set inside two identity-"gzip" wrappers
-   needs depth 3 *)
+   needs depth 3 and is refused with depth 2 *)
 Definition ex_plain_set : bytes := ex_entry 7 0 (tag "v") [].
 Definition ex_nested_set : bytes := ex_entry 0 COMPRESSION_GZIP (ex_entry 0 COMPRESSION_GZIP ex_plain_set []) [].
 Example ex_nested :
-  from_slice (ex_cz false) 2 false 0 ex_nested_set = Err EOutOfFuel
+  from_slice (ex_cz false) 2 false 0 ex_nested_set = Err EUnsupportedCompression
   /\ from_slice (ex_cz false) 3 false 0 ex_nested_set = Ok [{| m_offset := 7; m_key := []; m_value := tag "v" |}]
   /\ from_slice (ex_cz false) 8 false 0 ex_nested_set = Ok [{| m_offset := 7; m_key := []; m_value := tag "v" |}].
 Proof. vm_compute. repeat split; reflexivity. Qed.
@@ -835,7 +839,7 @@ Example ex_fetch_alloc : fetch_from_vec (ex_cz false) 8 false [] (ex_fetch ex_al
 Proof. vm_compute. reflexivity. Qed.
 Example ex_fetch_debug : fetch_from_vec (ex_cz true) 8 false [] (ex_fetch ex_trailing_set) = Panic dbg_tag.
 Proof. vm_compute. reflexivity. Qed.
-Example ex_fetch_depth : fetch_from_vec (ex_cz false) 2 false [] (ex_fetch ex_nested_set) = Err EOutOfFuel.
+Example ex_fetch_depth : fetch_from_vec (ex_cz false) 2 false [] (ex_fetch ex_nested_set) = Err EUnsupportedCompression.
 Proof. vm_compute. reflexivity. Qed.
 
 (* truncated at every byte, and each count / size field (topics, partitions, message set
@@ -860,14 +864,24 @@ Proof. vm_compute. reflexivity. Qed.
 
 (* the theorems about the origin of the escape hatches, applied to the witnesses *)
 Example ex_nested_nesting : nesting (ex_cz false) false 0 2 ex_nested_set.
-Proof. apply C13_message_set_depth. vm_compute. reflexivity. Qed.
+Proof.
+  eapply (nest_S _ _ _ _ _ COMPRESSION_GZIP (ex_entry 0 COMPRESSION_GZIP ex_plain_set []) (ex_entry 0 COMPRESSION_GZIP ex_plain_set [])).
+  - split; [left; reflexivity|]. intros inner. vm_compute. reflexivity.
+  - left. split; reflexivity.
+  - eapply (nest_S _ _ _ _ _ COMPRESSION_GZIP ex_plain_set ex_plain_set).
+    + split; [left; reflexivity|]. intros inner. vm_compute. reflexivity.
+    + left. split; reflexivity.
+    + constructor.
+Qed.
+Example ex_nested_refused : from_slice (ex_cz false) 2 false 0 ex_nested_set = Err EUnsupportedCompression.
+Proof. apply C13_message_set_depth. exact ex_nested_nesting. Qed.
 Example ex_alloc_reaches :
   exists v, reaches (ex_cz false) false 0 ex_alloc_set COMPRESSION_SNAPPY v /\ alloc_limit <= xerial_max_alloc v.
 Proof. apply (C13_message_set_alloc_only_if (ex_cz false) false 0 2). vm_compute. reflexivity. Qed.
 (* a snappy wrapper two levels down (inside an identity-"gzip" wrapper) is found as well *)
 Example ex_alloc_nested :
   from_slice (ex_cz false) 3 false 0 (ex_entry 0 COMPRESSION_GZIP ex_alloc_set []) = alloc_panic
-  /\ from_slice (ex_cz false) 1 false 0 (ex_entry 0 COMPRESSION_GZIP ex_alloc_set []) = Err EOutOfFuel.
+  /\ from_slice (ex_cz false) 1 false 0 (ex_entry 0 COMPRESSION_GZIP ex_alloc_set []) = Err EUnsupportedCompression.
 Proof. vm_compute. split; reflexivity. Qed.
 Example ex_release_tri : tri (from_slice (ex_cz false) 8 true 3 ex_trailing_set).
 Proof. apply C13_message_set_release. reflexivity. Qed.
